@@ -559,7 +559,6 @@ func usedAfter(after ssa.Instruction, v ssa.Value, b *ssa.BasicBlock) bool {
 	return false
 }
 
-
 // c01ResolveBeforeMerge: every commaok type test for *trienode.HashNode in trie2's mutating walkers leads, on its true
 // branch, through resolveNode before any return.
 func c01ResolveBeforeMerge(c *Ctx) {
